@@ -15,6 +15,11 @@ theorem consec_snoc (s l : Nat) : consec s (l + 1) = consec s l ++ [s + l] := by
     simp only [consec, List.cons_append, List.cons.injEq, true_and]
     congr 2; omega
 
+theorem mem_consec {s l h : Nat} : h ∈ consec s l ↔ s ≤ h ∧ h < s + l := by
+  induction l generalizing s with
+  | zero => simp [consec]
+  | succ l ih => simp only [consec, List.mem_cons, ih]; omega
+
 /-- Invariant of every reachable node; `d` = number of blocks that completely left the pipeline
 in this run. -/
 def Inv (n : Node) : Prop := ∃ d,
